@@ -1706,6 +1706,22 @@ sf_current_byterate (SNDFILE *sndfile)
 /*==============================================================================
 */
 
+/*
+** Items (or bytes) between the read position and the end of the data. The frame
+** count of a stream of unknown length (a pipe) can be close to SF_COUNT_MAX, so the
+** product is saturated instead of being allowed to wrap to a negative value.
+*/
+static sf_count_t
+items_to_end (const SF_PRIVATE *psf, int per_frame)
+{	sf_count_t frames = psf->sf.frames - psf->read_current ;
+
+	if (frames <= 0 || per_frame <= 0)
+		return 0 ;
+	if (frames > SF_COUNT_MAX / per_frame)
+		return SF_COUNT_MAX ;
+	return frames * per_frame ;
+} /* items_to_end */
+
 sf_count_t
 sf_read_raw		(SNDFILE *sndfile, void *ptr, sf_count_t bytes)
 {	SF_PRIVATE 	*psf ;
@@ -1741,10 +1757,10 @@ sf_read_raw		(SNDFILE *sndfile, void *ptr, sf_count_t bytes)
 
 	count = psf_fread (ptr, 1, bytes, psf) ;
 
-	if (count <= (psf->sf.frames - psf->read_current) * blockwidth)
+	if (count <= items_to_end (psf, blockwidth))
 		psf->read_current += count / blockwidth ;
 	else
-	{	count = (psf->sf.frames - psf->read_current) * blockwidth ;
+	{	count = items_to_end (psf, blockwidth) ;
 		extra = bytes - count ;
 		psf_memset (((char *) ptr) + count, 0, extra) ;
 		psf->read_current = psf->sf.frames ;
@@ -1799,10 +1815,10 @@ sf_read_short	(SNDFILE *sndfile, short *ptr, sf_count_t len)
 
 	count = psf->read_short (psf, ptr, len) ;
 
-	if (count <= (psf->sf.frames - psf->read_current) * psf->sf.channels)
+	if (count <= items_to_end (psf, psf->sf.channels))
 		psf->read_current += count / psf->sf.channels ;
 	else
-	{	count = (psf->sf.frames - psf->read_current) * psf->sf.channels ;
+	{	count = items_to_end (psf, psf->sf.channels) ;
 		extra = len - count ;
 		psf_memset (ptr + count, 0, extra * sizeof (short)) ;
 		psf->read_current = psf->sf.frames ;
@@ -1849,10 +1865,10 @@ sf_readf_short		(SNDFILE *sndfile, short *ptr, sf_count_t frames)
 
 	count = psf->read_short (psf, ptr, frames * psf->sf.channels) ;
 
-	if (count <= (psf->sf.frames - psf->read_current) * psf->sf.channels)
+	if (count <= items_to_end (psf, psf->sf.channels))
 		psf->read_current += count / psf->sf.channels ;
 	else
-	{	count = (psf->sf.frames - psf->read_current) * psf->sf.channels ;
+	{	count = items_to_end (psf, psf->sf.channels) ;
 		extra = frames * psf->sf.channels - count ;
 		psf_memset (ptr + count, 0, extra * sizeof (short)) ;
 		psf->read_current = psf->sf.frames ;
@@ -1907,10 +1923,10 @@ sf_read_int		(SNDFILE *sndfile, int *ptr, sf_count_t len)
 
 	count = psf->read_int (psf, ptr, len) ;
 
-	if (count <= (psf->sf.frames - psf->read_current) * psf->sf.channels)
+	if (count <= items_to_end (psf, psf->sf.channels))
 		psf->read_current += count / psf->sf.channels ;
 	else
-	{	count = (psf->sf.frames - psf->read_current) * psf->sf.channels ;
+	{	count = items_to_end (psf, psf->sf.channels) ;
 		extra = len - count ;
 		psf_memset (ptr + count, 0, extra * sizeof (int)) ;
 		psf->read_current = psf->sf.frames ;
@@ -1957,10 +1973,10 @@ sf_readf_int	(SNDFILE *sndfile, int *ptr, sf_count_t frames)
 
 	count = psf->read_int (psf, ptr, frames * psf->sf.channels) ;
 
-	if (count <= (psf->sf.frames - psf->read_current) * psf->sf.channels)
+	if (count <= items_to_end (psf, psf->sf.channels))
 		psf->read_current += count / psf->sf.channels ;
 	else
-	{	count = (psf->sf.frames - psf->read_current) * psf->sf.channels ;
+	{	count = items_to_end (psf, psf->sf.channels) ;
 		extra = frames * psf->sf.channels - count ;
 		psf_memset (ptr + count, 0, extra * sizeof (int)) ;
 		psf->read_current = psf->sf.frames ;
@@ -2015,10 +2031,10 @@ sf_read_float	(SNDFILE *sndfile, float *ptr, sf_count_t len)
 
 	count = psf->read_float (psf, ptr, len) ;
 
-	if (count <= (psf->sf.frames - psf->read_current) * psf->sf.channels)
+	if (count <= items_to_end (psf, psf->sf.channels))
 		psf->read_current += count / psf->sf.channels ;
 	else
-	{	count = (psf->sf.frames - psf->read_current) * psf->sf.channels ;
+	{	count = items_to_end (psf, psf->sf.channels) ;
 		extra = len - count ;
 		psf_memset (ptr + count, 0, extra * sizeof (float)) ;
 		psf->read_current = psf->sf.frames ;
@@ -2065,10 +2081,10 @@ sf_readf_float	(SNDFILE *sndfile, float *ptr, sf_count_t frames)
 
 	count = psf->read_float (psf, ptr, frames * psf->sf.channels) ;
 
-	if (count <= (psf->sf.frames - psf->read_current) * psf->sf.channels)
+	if (count <= items_to_end (psf, psf->sf.channels))
 		psf->read_current += count / psf->sf.channels ;
 	else
-	{	count = (psf->sf.frames - psf->read_current) * psf->sf.channels ;
+	{	count = items_to_end (psf, psf->sf.channels) ;
 		extra = frames * psf->sf.channels - count ;
 		psf_memset (ptr + count, 0, extra * sizeof (float)) ;
 		psf->read_current = psf->sf.frames ;
@@ -2123,10 +2139,10 @@ sf_read_double	(SNDFILE *sndfile, double *ptr, sf_count_t len)
 
 	count = psf->read_double (psf, ptr, len) ;
 
-	if (count <= (psf->sf.frames - psf->read_current) * psf->sf.channels)
+	if (count <= items_to_end (psf, psf->sf.channels))
 		psf->read_current += count / psf->sf.channels ;
 	else
-	{	count = (psf->sf.frames - psf->read_current) * psf->sf.channels ;
+	{	count = items_to_end (psf, psf->sf.channels) ;
 		extra = len - count ;
 		psf_memset (ptr + count, 0, extra * sizeof (double)) ;
 		psf->read_current = psf->sf.frames ;
@@ -2173,10 +2189,10 @@ sf_readf_double	(SNDFILE *sndfile, double *ptr, sf_count_t frames)
 
 	count = psf->read_double (psf, ptr, frames * psf->sf.channels) ;
 
-	if (count <= (psf->sf.frames - psf->read_current) * psf->sf.channels)
+	if (count <= items_to_end (psf, psf->sf.channels))
 		psf->read_current += count / psf->sf.channels ;
 	else
-	{	count = (psf->sf.frames - psf->read_current) * psf->sf.channels ;
+	{	count = items_to_end (psf, psf->sf.channels) ;
 		extra = frames * psf->sf.channels - count ;
 		psf_memset (ptr + count, 0, extra * sizeof (double)) ;
 		psf->read_current = psf->sf.frames ;
